@@ -148,8 +148,18 @@ fn main() {
             t2.log(json!({"ev": "step", "what": "second delete in A done", "n": r, "t": t2.ms()}));
             // no further client action: wait until nothing runs any more, then give the worker
             // several deferred periods
+            // (a loaded machine only makes this slower: wait for the dump itself, give up after a generous bound)
             let idle_wait = Duration::from_millis(4 * min_ms + 2 * slow_ms + 3000);
-            tokio::time::sleep(idle_wait).await;
+            let t_start = Instant::now();
+            loop {
+                tokio::time::sleep(Duration::from_millis(200)).await;
+                let done = {
+                    let ev = t2.events.lock().unwrap();
+                    let from = ev.iter().rposition(|e| e["ev"] == "step" && e["what"] == "second delete in A done").unwrap_or(0);
+                    ev.iter().skip(from).any(|e| e["ev"] == "dumped" && e["blob"] == 0 && e["ok"] == 1 && e["on_disk"] == 1)
+                };
+                if (done && t_start.elapsed() > Duration::from_millis(2 * slow_ms + min_ms)) || t_start.elapsed() > idle_wait * 4 { break; }
+            }
             // nothing runs any more (gauges), whatever the worker did: the C13 clause is judged here
             t2.log(json!({"ev": "quiescent", "ok": 1, "t": t2.ms()}));
             let ev = t2.events.lock().unwrap().clone();
@@ -233,8 +243,18 @@ fn main() {
             tokio::time::sleep(Duration::from_millis(min_ms / 3)).await;
             st.delete(&key(2), BlobRecordTimestamp::new(2), false).await.map_err(|e| format!("delete: {e:#}"))?;
             t2.log(json!({"ev": "step", "what": "second delete in A done", "t": t2.ms()}));
-            tokio::time::sleep(Duration::from_millis(3 * min_ms + 1500)).await;
-            t2.log(json!({"ev": "quiescent", "ok": 1, "t": t2.ms()}));
+            let t_start = Instant::now();
+            loop {
+                tokio::time::sleep(Duration::from_millis(200)).await;
+                let done = {
+                    let ev = t2.events.lock().unwrap();
+                    let from = ev.iter().rposition(|e| e["ev"] == "step").unwrap_or(0);
+                    ev.iter().skip(from).any(|e| e["ev"] == "dumped" && e["blob"] == 0 && e["ok"] == 1 && e["on_disk"] == 1)
+                };
+                if done || t_start.elapsed() > Duration::from_millis(12 * min_ms + 6000) { break; }
+            }
+            let _ = wait_quiescent(false, Duration::from_secs(20)).await;
+            t2.log(json!({"ev": "quiescent", "ok": if pearl::verif::PROBE.deferred.load(std::sync::atomic::Ordering::SeqCst) == 0 { 1 } else { 0 }, "t": t2.ms()}));
             let ev = t2.events.lock().unwrap().clone();
             let from = ev.iter().rposition(|e| e["ev"] == "step").unwrap_or(0);
             dumped_after_idle = ev.iter().skip(from).any(|e| e["ev"] == "dumped" && e["blob"] == 0 && e["ok"] == 1 && e["on_disk"] == 1);
